@@ -1,7 +1,7 @@
 #!/bin/bash
 # Free-running -race pass over the scenario bodies (diagnostic, not a verdict):
 # the cooperative scheduler's hand-offs would hide unsynchronised accesses.
-# usage: bin/racepass.sh [property ...]   -> evidence/racepass.txt
+# usage: bin/racepass.sh [property ...]   -> racepass/racepass.txt
 . "$(dirname "$0")/env.sh"
 export CGO_ENABLED=1
 "$VERIF_ROOT/bin/build.sh" || exit 2
@@ -9,7 +9,7 @@ cd "$VERIF_ROOT/harness"
 go build -race -tags verif -overlay "$VERIF_ROOT/.work/overlay.json" -o "$VERIF_ROOT/.work/resmc-race" ./cmd/resmc || exit 2
 cd "$VERIF_ROOT"
 props="${@:-C01 C04 C09 C13 C19}"
-out="$VERIF_ROOT/evidence/racepass.txt"
+mkdir -p "$VERIF_ROOT/racepass"; out="$VERIF_ROOT/racepass/racepass.txt"
 : > "$out"
 for p in $props; do
   GORACE="halt_on_error=0 log_path=$VERIF_ROOT/.work/race-$p" "$VERIF_ROOT/.work/resmc-race" racepass "$p" 15 >> "$out" 2>&1
